@@ -2,6 +2,7 @@ package main
 
 // Harness for the distributed key generation (properties C05, C01).
 //   dkg backend -seed N -tier quick|thorough -out FILE     real TBLS / TPS instances driven message by message
+//   dkg schedules -pkg ps -seed N -tier T -out FILE       backend DKG under schedules without per-link FIFO (C08, C05)
 //   dkg cancel  -seed N -tier quick|thorough -out FILE     cancellation matrix of the backend KeyGen (C11)
 //   dkg stack   -seed N -tier quick|thorough -out FILE     threshold.LoudScheme / SilentScheme over an in-memory network
 // One JSON object per line; every random choice derives from -seed.
@@ -49,6 +50,7 @@ func main() {
 	seed := fs.Uint64("seed", 1, "PRNG seed")
 	tier := fs.String("tier", "quick", "quick | thorough")
 	outPath := fs.String("out", "", "output file (JSON lines); default stdout")
+	pkgFlag := fs.String("pkg", "ps", "schedules: bls | ps")
 	only := fs.String("only", "all", "all | honest | deviant: which scenarios to run")
 	fs.Parse(os.Args[2:])
 	f := os.Stdout
@@ -65,6 +67,8 @@ func main() {
 	switch cmd {
 	case "backend":
 		runBackend(newPRNG(*seed), *tier == "thorough", *only)
+	case "schedules":
+		runSchedules(newPRNG(*seed), *tier == "thorough", *pkgFlag)
 	case "cancel":
 		runCancel(newPRNG(*seed), *tier == "thorough")
 	case "stack":
